@@ -23,6 +23,8 @@ VERIF = os.path.dirname(os.path.dirname(os.path.abspath(__file__)))
 REPO = os.environ.get("VERIF_REPO", "/repo")
 SCRATCH = os.environ.get("VERIF_SCRATCH", os.path.join(VERIF, ".build"))
 GUARD = "SVT_AV1_VERIF"
+# runs against a scratch copy of the repository (mutation experiments) never touch the committed evidence
+OUT_DIR = VERIF if os.path.realpath(REPO) == "/repo" else SCRATCH
 
 INC_DIRS = [
     ".", "Source/API", "Source/Lib/Common/Codec", "Source/Lib/Common/C_DEFAULT",
@@ -643,13 +645,16 @@ def file_hashes(u):
     return hs
 
 
-def classify(results):
+def classify(results, entry=None):
     ok, failed, canary_ok, canary_bad, other = [], [], [], [], []
     for r in results:
         desc = r.get("description", "")
         st = r.get("status")
         if desc.startswith("CANARY"):
-            (canary_ok if st == "FAILURE" else canary_bad).append(r)
+            if st == "FAILURE":
+                canary_ok.append(r)
+            elif entry is None or r.get("sourceLocation", {}).get("function") == entry:
+                canary_bad.append(r)   # a canary of THIS unit's harness function that cannot be reached
         elif st == "SUCCESS":
             ok.append(r)
         elif st == "FAILURE":
@@ -673,7 +678,7 @@ def run_unit(u, tier, known):
         results, msgs, status, secs, cmd = run_cbmc(u, gb, udir, tier)
         res["solver_s"] = round(secs, 2)
         res["cmd"] = cmd.replace(SCRATCH, "$SCRATCH")
-        ok, failed, c_ok, c_bad, other = classify(results)
+        ok, failed, c_ok, c_bad, other = classify(results, u.entry)
         res["obligations"] = len(ok) + len(failed) + len(other)
         res["discharged"] = len(ok)
         res["samples"] = ["%s: %s [%s]" % (r["property"], r["description"], r["status"])
@@ -753,8 +758,8 @@ def run_unit(u, tier, known):
 
 def make_replay(u, res, tier):
     """trace for the root failing obligation, inputs, native twin; returns (path, reproduced)"""
-    os.makedirs(os.path.join(VERIF, "replays"), exist_ok=True)
-    path = os.path.join(VERIF, "replays", "%s_%s.json" % (u.prop, re.sub(r"\W", "_", u.uid)))
+    os.makedirs(os.path.join(OUT_DIR, "replays"), exist_ok=True)
+    path = os.path.join(OUT_DIR, "replays", "%s_%s.json" % (u.prop, re.sub(r"\W", "_", u.uid)))
     rep = {"property": u.prop, "unit": u.uid, "functions": u.functions, "failed_obligations": res["failed"],
            "harness": u.harness, "tier": tier}
     reproduced = None
@@ -943,5 +948,5 @@ def write_evidence(prop, tier, seed, results, sel, wall, violations, undecided, 
     assumptions = sorted({a for u in sel for a in u.assumptions} | set(meta.get("assumptions", [])))
     ev = {"property_id": prop, "tier": tier, "seed": seed, "level": level, "coverage": cov,
           "assumptions": assumptions, "wall_s": round(wall, 1), "violations": violations}
-    os.makedirs(os.path.join(VERIF, "evidence"), exist_ok=True)
-    json.dump(ev, open(os.path.join(VERIF, "evidence", prop + ".json"), "w"), indent=1)
+    os.makedirs(os.path.join(OUT_DIR, "evidence"), exist_ok=True)
+    json.dump(ev, open(os.path.join(OUT_DIR, "evidence", prop + ".json"), "w"), indent=1)
